@@ -619,9 +619,9 @@ pub fn run(ctx: &Ctx) {
     exhaustive(ctx, "neg-exh", &SEC_NEG, &all, check_nopanic);
 
     // (2) random, stratified
-    ctx.run_prop("instant-rand", ctx.cases(100_000, 1_500_000), arith_exact(), check_exact::<Instant>);
-    ctx.run_prop("systime-rand", ctx.cases(100_000, 1_500_000), arith_exact(), check_exact::<SystemTime>);
-    ctx.run_prop("neg-rand", ctx.cases(60_000, 1_000_000), arith_neg(), check_nopanic);
+    ctx.run_prop("instant-rand", ctx.cases(60_000, 1_500_000), arith_exact(), check_exact::<Instant>);
+    ctx.run_prop("systime-rand", ctx.cases(60_000, 1_500_000), arith_exact(), check_exact::<SystemTime>);
+    ctx.run_prop("neg-rand", ctx.cases(40_000, 1_000_000), arith_neg(), check_nopanic);
 
     // (3) clock and sleep
     clock::run(ctx);
